@@ -256,6 +256,8 @@ def make_request(edit, rel, node, env, leaves, universe, opts, seed_expr, pick, 
         if not cols:
             raise Skip()
         other_kind = "it" if kind_here == "sql" else "sql"
+        if pick % 5 == 0:
+            other_kind = "none"  # an empty set of supporting engine types: supported nowhere
         inner = ("rneg", other_kind, ("ref", some(cols)))
         # the unsupported function may sit below a function that itself declares this engine, or below an unrestricted one
         e = (inner, ("rneg", kind_here, inner), ("add", inner, ("lit", 1)), ("rneg", kind_here, ("add", ("lit", 1), inner)))[(pick // 7) % 4]
